@@ -6,7 +6,7 @@ LEVEL = "other"
 EXPLANATION = ("PARTIAL. Decided: error protocol and memory safety of Bragg_angle, Q_scattering_amplitude, Atomic_Factors, "
                "Crystal_F_H_StructureFactor_Partial (NULL crystal, atomic numbers outside the tables, invalid flags, no reflection => error "
                "instead of NaN); Bragg angle = asin(hc/E / 2d) and Q = E sin(rel theta_B)/hc as congruence lemmas; atomic factors = (FF(q), "
-               "f'(E), -f''(E)) x Debye factor; the structure factor equals the explicit sum over atoms with the atomic factors the library "
+               "f'(E), -f''(E)) x Debye factor, failing exactly when a requested factor is unavailable (a factor of exactly 0 is a value; any subset of the outputs may be NULL); the structure factor equals the explicit sum over atoms with the atomic factors the library "
                "reports (bounded: 2 atoms; same element twice checks the per-element cache; all 12 valid flag combinations + invalid ones); "
                "the d-spacing equals the triclinic reciprocal-metric expression and the cell volume its closed form (congruences over unknown sin/cos/sqrt/pow). "
                "NOT decided by this family (needs properties of sin/cos/asin/sqrt or real algebra): 2 d sin(theta) = hc/E, inversion and 1/n "
@@ -33,6 +33,8 @@ def groups(sc, tier):
                         harness_defines=["-DLEMMA_GEOMETRY", "-DLIBM_CONCRETE_IN_PREPASS"], functions=[fn], restrict_retry="V_RESTRICT_LEAVES", **base))
     stub1, u1 = common.stubs(sc, ["FF_Rayl", "Fi", "Fii"], "diffr1")
     gs.append(Group("C13.K2.Atomic_Factors", "K2", "lemma_Atomic_Factors", extra=["harness/h_diffraction.c", "harness/libm_uf.c", stub1, common.STATE],
+                    harness_defines=["-DLEMMA_ATOMIC_FACTORS"], functions=["Atomic_Factors"], stubs_used=u1, **base))
+    gs.append(Group("C13.K2.Atomic_Factors.optional", "K2", "lemma_Atomic_Factors_optional", extra=["harness/h_diffraction.c", "harness/libm_uf.c", stub1, common.STATE],
                     harness_defines=["-DLEMMA_ATOMIC_FACTORS"], functions=["Atomic_Factors"], stubs_used=u1, **base))
     flagsets = [(a, b, c) for a in (0, 1, 2) for b in (0, 2) for c in (0, 2)] if tier == "thorough" else [(2, 2, 2), (1, 0, 0), (0, 2, 2), (2, 0, 2)]
     for za, zb in ((26, 8), (26, 26)):
